@@ -198,7 +198,8 @@ def c13d(ctx, tu):
                detail="" if ok else "a new requirement must register itself with the watched object")
     for fn in tu.find("trompeloeil::deathwatched::trompeloeil_expect_death"):
         rets = [e.get("x") for b, e in fn.events() if e["e"] == "return"]
-        ok = len(rets) == 1 and lib.tree_name(rets[0]) == "trompeloeil::null_on_move::leak"
+        # (possibly through a local reference bound to it)
+        ok = len(rets) == 1 and lib.tree_name(lib.resolve(fn, rets[0])) == "trompeloeil::null_on_move::leak"
         ctx.ob("C13.d", "trompeloeil::deathwatched::trompeloeil_expect_death", ok, pattern=fn.pat, unit=tu.name, inst=fn.q,
                detail="" if ok else "expect_death must hand the requirement a reference to the object's own slot")
 
